@@ -1720,6 +1720,14 @@ def check_vector_lifting_stack(run, tree):
                     ev = ModelEval(tree, vfi, {}, hk)
                     if whole:
                         o = outcome(lambda: ev.aug_op(None, opnode, v, y))
+                        if o[0] != "raises":
+                            # another reference to the same Vector (the one a second Datagroup holds): its unit is what its components carry NOW
+                            for who, ref in (("an older reference to v", v), ("the name v", o[1])):
+                                if isinstance(ref, PyObj) and ref._cls.qual == VECTOR_Q:
+                                    cu = {a._attrs.get("_unit") for a in comps_of(tree, hk, ref).values()}
+                                    vu = outcome(lambda ref=ref: ev.obj_getattr(ref, "unit"))
+                                    if vu[0] == "raises" or len(cu) != 1 or vu[1] != next(iter(cu)):
+                                        problems.append("y = %s: after v %s y, %s reports the unit %r while its components carry %r" % (label, sym, who, vu[1], sorted(map(repr, cu))))
                         res.append(o if o[0] == "raises" else ("value", {c: (a._attrs["_array"].r, a._attrs["_array"].dtype.kind, a._attrs.get("_unit")) for c, a in comps_of(tree, hk, o[1]).items()})
                                    if isinstance(o[1], PyObj) and o[1]._cls.qual == VECTOR_Q else ("value", repr(o[1])))
                     else:
